@@ -95,6 +95,9 @@ var NameSchemes = []NameScheme{
 	{"spaces", []string{"A", "B", "A B", "B A", "A B A", " ", "A  B", `"a" "b"`, "B  A"}, []string{"a", "b", "a b", " b"}},
 	// terminals in upper case: named like the non-terminals, and sorted among them
 	{"upper-case-terminals", []string{"S", "A", "B", "C", "D", "E", "U", "V", "N"}, []string{"A", "S", "B", "a", "Z0"}},
+	// names that embed what a home-made key might put between two symbols (a kind letter, a separator): with a key such as
+	// kind letter + name + blank per symbol, [A, B] and the single non-terminal "A nB" are written alike
+	{"embedded-keys", []string{"A", "B", "A nB", "A tb", "A,nB", "A|B", "A,B", "nA", "A NB"}, []string{"b", "a", "b nA", "a,b", "tb"}},
 }
 
 func pickNames(r *hx.Rand, pool []string, k int, prefix bool) []string {
